@@ -1557,6 +1557,39 @@ def general_l2(run, n=None, label='general-traces'):
         sc_ = l2.gen_scenario(rng, rng.choice(['folder', 'mixed']), faults=False)
         sc_.filters = rng.sample(['+.*', '-a', '+a/.*', '-.*\\.b', '-build|dist', '-.*\\.bak', '+d.*', '-x y'], rng.randint(1, 3))
         scs.append(sc_)
+    # kept conflicts: several destination entries (links, files) standing where the source has folders with contents, their deletion
+    # refused by configuration or by prompt answers; listings in walker order (a whole directory before descending) and in random order
+    for _ in range(n // 4):
+        sc_ = l2.Scenario()
+        sc_.src_root, sc_.dest_root = 'S', 'D'
+        sc_.src_reply = ('R', 'D', 0, 47); sc_.dest_reply = ('R', 'D', rng.random() < 0.3, 47); sc_.dest_reply2 = ('R', None, False, 47)
+        names = rng.sample(['a', 'b', 'c', 'd', 'e'], rng.randint(2, 4))
+        top_s, kids_s, top_d, kids_d = [], [], [], []
+        for nm in names:
+            r_ = rng.random()
+            if r_ < 0.55:       # source folder with contents, destination something else
+                top_s.append((nm, 'D'))
+                for kid in rng.sample(['f', 'g', 'sub'], rng.randint(1, 3)):
+                    kids_s.append((nm + '/' + kid, 'D' if kid == 'sub' else l2.det_file(rng.choice(l2.TIMES), 0)))
+                    if kid == 'sub' and rng.random() < 0.7: kids_s.append((nm + '/sub/h', l2.det_file(rng.choice(l2.TIMES), 0)))
+                top_d.append((nm, rng.choice(['L:D:X2f6f757473696465', 'L:U:N6e6f7768657265', l2.det_file(5, 3)])))
+            elif r_ < 0.75:     # equal folders
+                top_s.append((nm, 'D')); top_d.append((nm, 'D'))
+                kids_s.append((nm + '/f', l2.det_file(rng.choice(l2.TIMES), 0)))
+                if rng.random() < 0.5: kids_d.append((nm + '/f', l2.det_file(rng.choice(l2.TIMES), 0)))
+            elif r_ < 0.9:      # destination folder with contents, source a file / link
+                top_s.append((nm, rng.choice([l2.det_file(7, 0), 'L:U:N78']))); top_d.append((nm, 'D')); kids_d.append((nm + '/old', l2.det_file(3, 1)))
+            else:
+                top_d.append((nm, l2.det_file(3, 1)))
+        if rng.random() < 0.6:
+            sl, dl = top_s + kids_s, top_d + kids_d            # walker order
+        else:
+            sl, dl = l2.linearise(rng, top_s + kids_s), l2.linearise(rng, top_d + kids_d)
+        sc_.events = l2.interleave(rng, [('E', 'S', p, d) for p, d in sl] + [('Z', 'S')], [('E', 'D', p, d) for p, d in dl] + [('Z', 'D')])
+        sc_.beh = rng.choice(['oooso', 'ooosp', 'ooopo', 'ooopp', 'sssso', 'ooooo', 'oooeo'])
+        sc_.answers = ''.join(rng.choice('sSdDsS') for _ in range(rng.choice([0, 1, 2, 3, 5])))
+        sc_.files = [(p, [(b'', False)]) for p, d in sl if d.startswith('F:')]
+        scs.append(sc_)
     return l2_stream(run, scs, GENERIC_L2_ORACLES, label,
                      nontrivial=lambda r: any(is_mutating(c) for c in r['impl_r'].get('dest', [])) or r['impl_r'].get('res', '').startswith('err'))
 
@@ -1892,12 +1925,13 @@ def check_C08(run):
                         cases.append((n, chunks, lim, pre))
         if not thorough:
             cases = cases[::2]
-        src_mt = 1_600_000_000_123_456_789
+        SRC_MTS = [1_600_000_000_123_456_789, 0, 1, 1_000_000_000, 2 ** 32 * 10 ** 9, 999_999_999]     # the source's time may be anything, the epoch included
+        src_mt_of = lambda i: SRC_MTS[i % len(SRC_MTS)]
         old_mt = 1_000_000_000_000_000_000
         by_limit = {}
         for i, (n, chunks, lim, pre) in enumerate(cases):
             data = l3.content(i, n)
-            l3.make_tree(os.path.join(d, 'src'), [(f'f{i}', 'F', data, src_mt)])
+            l3.make_tree(os.path.join(d, 'src'), [(f'f{i}', 'F', data, src_mt_of(i))])
             by_limit.setdefault(lim, []).append(i)
         results = {}
         for lim, idxs in by_limit.items():
@@ -1909,6 +1943,7 @@ def check_C08(run):
                     l3.make_tree(droot, [(f'f{i}', 'F', b'\xee' * min(pre, lim), old_mt)])
                 cmds, off = [['SR', C.X(droot)]], 0
                 srcfile = os.path.join(d, 'src', f'f{i}').encode().hex()
+                src_mt = src_mt_of(i)
                 for ln, more in chunks:
                     cmds.append(['CUF', C.X(f'f{i}'), f'f{srcfile}:{off}:{ln}', '-' if more else str(src_mt), str(more)]); off += ln
                     if more and i % 2 == 1:
@@ -1936,7 +1971,7 @@ def check_C08(run):
         import hashlib
         for i, ((n, chunks, lim, pre), m_ans) in enumerate(zip(cases, model)):
             ans, ent = results.get(i, ('missing', None))
-            data = l3.content(i, n)
+            data = l3.content(i, n); src_mt = src_mt_of(i)
             if ent is None:
                 got = 'absent'
             else:
